@@ -11,6 +11,7 @@ import SoyVerif.Ops.Check
 import SoyVerif.Ops.Writer
 import SoyVerif.Ops.Escape
 import SoyVerif.Ops.Value
+import SoyVerif.Ops.Json
 import SoyVerif.Ops.Msg
 import SoyVerif.Ops.JsGen
 import SoyVerif.Ops.Lexer
@@ -29,6 +30,7 @@ def allOps : List Op :=
   Ops.Writer.ops ++
   Ops.Escape.ops ++
   Ops.Value.ops ++
+  Ops.Json.ops ++
   Ops.Msg.ops ++
   Ops.JsGen.ops ++
   Ops.Lexer.ops ++
